@@ -558,6 +558,12 @@ var f64Specials = []uint64{
 	0x3EB0C6F7A0B5ED8D, // 1e-6
 	0x3E7AD7F29ABCAF48, // 1e-7
 	0x4340000000000000, // 2^53
+	0x43E0000000000000, 0xC3E0000000000000, // ±2^63 (int64 conversion boundary)
+	0x43F0000000000000, // 2^64
+	0x41E0000000000000, 0x41F0000000000000, // 2^31, 2^32
+	0x43E158E460913D00, // 1e19
+	0x433FFFFFFFFFFFFF, // 2^53-1
+	0x4059000000000000, // 100
 }
 var f64Inf = []uint64{0x7FF0000000000000, 0xFFF0000000000000}
 var f64NaN = []uint64{0x7FF8000000000000, 0x7FF0000000000001, 0xFFF8000000000001, 0x7FFFFFFFFFFFFFFF}
@@ -565,6 +571,7 @@ var f64NaN = []uint64{0x7FF8000000000000, 0x7FF0000000000001, 0xFFF8000000000001
 var f32Specials = []uint32{
 	0, 1 << 31, 1, 1<<31 | 1, 0x7F7FFFFF, 0xFF7FFFFF, 0x3F800000, 0xBF800000, 0x00800000,
 	0x3F800080, 0x40490FDB, 0x60AD78EC, 0x358637BD, 0x4B800000,
+	0x5F000000, 0xDF000000, 0x5F800000, 0x4F000000, 0x4F800000, // ±2^63, 2^64, 2^31, 2^32
 }
 var f32Inf = []uint32{0x7F800000, 0xFF800000}
 var f32NaN = []uint32{0x7FC00000, 0x7F800001, 0xFFC00001, 0x7FFFFFFF}
